@@ -1,8 +1,8 @@
 /-
 Lemmas/C21.lean -- plan_mutator with a processor that inserts head / tail plans: the execution
-relation `Path`, the generic "top generator runs undisturbed" lemma, the single-iteration lemmas
+relation `PmPath`, the generic "top generator runs undisturbed" lemma, the single-iteration lemmas
 (insertion, exhaustion of head and tail, exceptions), the fresh-id invariant and adequacy of
-`Path` for the fuel-indexed machine.
+`PmPath` for the fuel-indexed machine.
 -/
 import BlueskyVerif.Gen.Mutators
 import BlueskyVerif.Lemmas.Gen
@@ -72,20 +72,20 @@ def PM.answered (s : PM M ι R V E) (r : R) : PM M ι R V E :=
 
 theorem pmResume_send (s : PM M ι R V E) (r : R) : pmResume s (.send r) = .cont (s.answered r) := rfl
 
-/-- `Path n s io s'`: starting at the top of the loop in state `s`, plan_mutator yields the
+/-- `PmPath n s io s'`: starting at the top of the loop in state `s`, plan_mutator yields the
     messages of `io` in this order, each answered by the paired response, with `n` loop
     iterations that do not yield in between, and is then at the top of the loop in state `s'`. -/
-inductive Path (key : M → ι) (proc : Proc M R V E) :
+inductive PmPath (key : M → ι) (proc : Proc M R V E) :
     Nat → PM M ι R V E → List (M × R) → PM M ι R V E → Prop where
-  | nil (s) : Path key proc 0 s [] s
-  | silent {n s s' io s''} : pmIter key proc s = .cont s' → Path key proc n s' io s'' →
-      Path key proc (n + 1) s io s''
+  | nil (s) : PmPath key proc 0 s [] s
+  | silent {n s s' io s''} : pmIter key proc s = .cont s' → PmPath key proc n s' io s'' →
+      PmPath key proc (n + 1) s io s''
   | io {n s m s1 r io s''} : pmIter key proc s = .yield m s1 →
-      Path key proc n (s1.answered r) io s'' → Path key proc n s ((m, r) :: io) s''
+      PmPath key proc n (s1.answered r) io s'' → PmPath key proc n s ((m, r) :: io) s''
 
-theorem Path.append {key : M → ι} {proc : Proc M R V E} {n1 n2 : Nat} {s1 s2 s3 : PM M ι R V E}
-    {io1 io2 : List (M × R)} (h1 : Path key proc n1 s1 io1 s2) (h2 : Path key proc n2 s2 io2 s3) :
-    Path key proc (n1 + n2) s1 (io1 ++ io2) s3 := by
+theorem PmPath.append {key : M → ι} {proc : Proc M R V E} {n1 n2 : Nat} {s1 s2 s3 : PM M ι R V E}
+    {io1 io2 : List (M × R)} (h1 : PmPath key proc n1 s1 io1 s2) (h2 : PmPath key proc n2 s2 io2 s3) :
+    PmPath key proc (n1 + n2) s1 (io1 ++ io2) s3 := by
   induction h1 with
   | nil s => simpa using h2
   | silent hi _ ih => rw [Nat.add_right_comm]; exact .silent hi (ih h2)
@@ -113,7 +113,7 @@ theorem top_run (key : M → ι) (proc : Proc M R V E) (p : Pos M R V E) (r : R)
       s.exception = none → s.planStack = (g, p) :: below → s.resultStack = r :: rs0 →
       (∀ mr ∈ io, Quiet key proc s.msgsSeen mr.1) →
       ∃ (s' : PM M ι R V E) (p' p'' : Pos M R V E),
-        Path key proc 0 s io s' ∧ s'.exception = none ∧ s'.planStack = (g, p') :: below ∧
+        PmPath key proc 0 s io s' ∧ s'.exception = none ∧ s'.planStack = (g, p') :: below ∧
         s'.resultStack = lastResp r io :: rs0 ∧
         p'.resume (.send (lastResp r io)) = (.ret v, p'') ∧
         s'.tailCache = s.tailCache ∧ s'.tailResultCache = s.tailResultCache ∧
@@ -262,8 +262,8 @@ theorem pmIter_fresh (key : M → ι) (proc : Proc M R V E) (s : PM M ι R V E) 
 
 theorem answered_fresh (s : PM M ι R V E) (r : R) (h : FreshIds s) : FreshIds (s.answered r) := h
 
-theorem Path.fresh {key : M → ι} {proc : Proc M R V E} {n : Nat} {s s' : PM M ι R V E}
-    {io : List (M × R)} (hp : Path key proc n s io s') (h : FreshIds s) : FreshIds s' := by
+theorem PmPath.fresh {key : M → ι} {proc : Proc M R V E} {n : Nat} {s s' : PM M ι R V E}
+    {io : List (M × R)} (hp : PmPath key proc n s io s') (h : FreshIds s) : FreshIds s' := by
   induction hp with
   | nil s => exact h
   | silent hi _ ih => exact ih (by have := pmIter_fresh key proc _ h; rw [hi] at this; exact this)
@@ -383,7 +383,7 @@ theorem sandwich (key : M → ι) (proc : Proc M R V E) (s : PM M ι R V E) (g :
     (hio : List (M × R)) (hv : V) (hrun : Runs (Pos.new h) default hio hv)
     (tio : List (M × R)) (htail : TailRuns tl tio)
     (hq : ∀ mr ∈ hio ++ tio, Quiet key proc (key msg :: s.msgsSeen) mr.1) :
-    ∃ n s_end, n ≤ 3 ∧ Path key proc n s (hio ++ tio) s_end ∧ s_end.exception = none ∧
+    ∃ n s_end, n ≤ 3 ∧ PmPath key proc n s (hio ++ tio) s_end ∧ s_end.exception = none ∧
       s_end.planStack = (g, q1) :: rest ∧ s_end.resultStack = lastResp default hio :: rs0 ∧
       FreshIds s_end := by
   have hi1 := insert_iter key proc s g q q1 rest r rs0 msg hd tl h hex hps hrs hres hns hproc hh
@@ -406,8 +406,8 @@ theorem sandwich (key : M → ι) (proc : Proc M R V E) (s : PM M ι R V E) (g :
     obtain ⟨s3, hs3, e3x, e3p, e3r⟩ : ∃ s3, pmIter key proc s2 = .cont s3 ∧ s3.exception = none ∧
         s3.planStack = (g, q1) :: rest ∧ s3.resultStack = lastResp default hio :: rs0 :=
       ⟨_, hex2, by simpa using e2x, rfl, rfl⟩
-    have hfull := Path.silent hi1 (hpath2.append (Path.silent hs3 (Path.nil _)))
-    exact ⟨2, s3, by omega, by simpa using hfull, e3x, e3p, e3r, Path.fresh hfull hfresh⟩
+    have hfull := PmPath.silent hi1 (hpath2.append (PmPath.silent hs3 (PmPath.nil _)))
+    exact ⟨2, s3, by omega, by simpa using hfull, e3x, e3p, e3r, PmPath.fresh hfull hfresh⟩
   | some t =>
     obtain ⟨tv, htrun⟩ := htail
     rw [pmExhausted_head_tail _ _ (s.nextId + 1, Pos.new t) _ _ hnid (by simpa using htr2)
@@ -441,11 +441,11 @@ theorem sandwich (key : M → ι) (proc : Proc M R V E) (s : PM M ι R V E) (g :
     obtain ⟨s5, hs5, e5x, e5p, e5r⟩ : ∃ s5, pmIter key proc s4 = .cont s5 ∧ s5.exception = none ∧
         s5.planStack = (g, q1) :: rest ∧ s5.resultStack = lastResp default hio :: rs0 :=
       ⟨_, hex4, by simpa using e4x, rfl, rfl⟩
-    have hfull := Path.silent hi1 (hpath2.append (Path.silent hs3
-      (hpath4.append (Path.silent hs5 (Path.nil _)))))
-    exact ⟨3, s5, by omega, by simpa using hfull, e5x, e5p, e5r, Path.fresh hfull hfresh⟩
+    have hfull := PmPath.silent hi1 (hpath2.append (PmPath.silent hs3
+      (hpath4.append (PmPath.silent hs5 (PmPath.nil _)))))
+    exact ⟨3, s5, by omega, by simpa using hfull, e5x, e5p, e5r, PmPath.fresh hfull hfresh⟩
 
-/-! ### adequacy: `Path` is what the fuel-indexed machine does, given enough fuel -/
+/-! ### adequacy: `PmPath` is what the fuel-indexed machine does, given enough fuel -/
 
 /-- the machine `pmStep fuel`, being at `res`, yields the messages of `io` and is fed the paired
     responses, ending at `res'` -/
@@ -458,8 +458,8 @@ inductive Follows (fuel : Nat) (key : M → ι) (proc : Proc M R V E) (plan : Be
 
 /-- fuel-monotone semantics: with more than `n` units of fuel the machine follows a path with `n`
     silent iterations, and still has fuel left at its end. -/
-theorem Path.adequate {key : M → ι} {proc : Proc M R V E} {n : Nat} {s s' : PM M ι R V E}
-    {io : List (M × R)} (hp : Path key proc n s io s') (plan : Beh M R V E) (fuel : Nat)
+theorem PmPath.adequate {key : M → ι} {proc : Proc M R V E} {n : Nat} {s s' : PM M ι R V E}
+    {io : List (M × R)} (hp : PmPath key proc n s io s') (plan : Beh M R V E) (fuel : Nat)
     (hfuel : n < fuel) :
     ∀ f0, n < f0 → f0 ≤ fuel → ∃ f1, f0 - n ≤ f1 ∧ f1 ≤ fuel ∧
       Follows fuel key proc plan (pmLoop key proc f0 s) io (pmLoop key proc f1 s') := by
@@ -622,8 +622,8 @@ theorem pmIter_keeps (key : M → ι) (proc : Proc M R V E) (s : PM M ι R V E) 
             | some o => cases o <;> (simp only []; split <;> first | trivial | exact fun k hk => hk)
           · trivial
 
-theorem Path.keeps {key : M → ι} {proc : Proc M R V E} {n : Nat} {s s' : PM M ι R V E}
-    {io : List (M × R)} (hp : Path key proc n s io s') : ∀ k, k ∈ s.msgsSeen → k ∈ s'.msgsSeen := by
+theorem PmPath.keeps {key : M → ι} {proc : Proc M R V E} {n : Nat} {s s' : PM M ι R V E}
+    {io : List (M × R)} (hp : PmPath key proc n s io s') : ∀ k, k ∈ s.msgsSeen → k ∈ s'.msgsSeen := by
   induction hp with
   | nil s => exact fun k hk => hk
   | @silent n s s1 io s'' hi _ ih =>
